@@ -93,6 +93,36 @@ fn check_ty<T: Elem>(case: &Case) -> Result<(), String> {
             return Err(format!("foreign-built DiplomatSlice<{}> of len {} reads back differently", ty, n));
         }
     }
+    // views of sub-slices: a view may start at any element of a larger buffer (any multiple of the element size, not only where
+    // an allocation starts)
+    for k in 1..n.min(5) {
+        label("sub-slice");
+        let s: &[T] = &orig[k..];
+        let v: DiplomatSlice<T> = s.into();
+        let d: &[T] = &v;
+        if d.as_ptr() != s.as_ptr() || d.len() != n - k || !bits_eq(d, s) {
+            return Err(format!("DiplomatSlice<{}> over elements {}.. of a {}-element buffer derefs to ({:?},{}) instead of ({:?},{})", ty, k, n, d.as_ptr(), d.len(), s.as_ptr(), n - k));
+        }
+        let back: &[T] = v.into();
+        if back.as_ptr() != s.as_ptr() || back.len() != n - k || !bits_eq(back, s) {
+            return Err(format!("DiplomatSlice<{}> over elements {}.. of a {}-element buffer converts back to ({:?},{}) instead of ({:?},{})", ty, k, n, back.as_ptr(), back.len(), s.as_ptr(), n - k));
+        }
+        let mut work = orig.clone();
+        let expect = orig.clone();
+        let sm: &mut [T] = &mut work[k..];
+        let pm = sm.as_mut_ptr();
+        let mut vm: DiplomatSliceMut<T> = sm.into();
+        {
+            let dm: &mut [T] = &mut vm;
+            if dm.as_mut_ptr() != pm || dm.len() != n - k || !bits_eq(dm, &expect[k..]) {
+                return Err(format!("DiplomatSliceMut<{}> over elements {}.. of a {}-element buffer derefs to ({:?},{})", ty, k, n, dm.as_mut_ptr(), dm.len()));
+            }
+        }
+        let backm: &mut [T] = vm.into();
+        if backm.as_mut_ptr() != pm || backm.len() != n - k {
+            return Err(format!("DiplomatSliceMut<{}> over elements {}.. of a {}-element buffer converts back to ({:?},{})", ty, k, n, backm.as_mut_ptr(), backm.len()));
+        }
+    }
     // &mut [T] -> DiplomatSliceMut -> &mut [T], writing through it
     {
         let mut work = orig.clone();
